@@ -194,8 +194,10 @@ def img_html(spec):
         css.append(f'border-{side}:{float(spec["border_" + side]):g}px solid black')
     uri, style, kind = png_uri(spec['pw'], spec['ph'], spec['color']), ';'.join(css), spec.get('kind', 'img')
     if kind == 'content':
+        orientation = f'image-orientation:{spec["orientation"]};' if spec.get('orientation') else ''
         return (f'<style>#{spec["id"]}::before{{content:url({uri});image-resolution:{resolution_css(spec)};'
-                f'image-rendering:{spec["rendering"]};vertical-align:top}}</style><span id="{spec["id"]}"></span>')
+                f'{orientation}image-rendering:{spec["rendering"]};vertical-align:top}}</style>'
+                f'<span id="{spec["id"]}"></span>')
     if kind == 'svg':
         source = real.svg_source(*spec['svg']).encode()
         uri, kind = 'data:image/svg+xml;base64,' + base64.b64encode(source).decode(), 'img'
@@ -432,9 +434,12 @@ def run_document(doc):
         assert isinstance(box, boxes.BlockReplacedBox if spec['block'] else boxes.InlineReplacedBox)
         image = box.replacement
         is_svg = spec.get('kind') == 'svg'
-        quarter = str(spec.get('orientation') or '').startswith(('90deg', '270deg')) and spec.get('kind') != 'content'
+        quarter = str(spec.get('orientation') or '').startswith(('90deg', '270deg'))
         pw, ph = (spec['ph'], spec['pw']) if quarter else (spec['pw'], spec['ph'])
-        assert is_svg or (image.width, image.height) == (pw, ph)
+        assert is_svg or (image.width, image.height) == (pw, ph), (
+            f'{spec.get("kind")} #{spec["id"]} with image-orientation {spec.get("orientation") or "from-image"}: the '
+            f'replaced box shows a {image.width}x{image.height} px image, the {spec["pw"]}x{spec["ph"]} px source under '
+            f'that orientation is {pw}x{ph} px')
         css = [dim_wire(spec[k]) for k in ('width', 'height', 'min_width', 'min_height')]
         css += ['none' if spec[k] == 'auto' else dim_wire(spec[k]) for k in ('max_width', 'max_height')]
         css += [dim_wire(spec[f'margin_{s}']) for s in ('left', 'right', 'top', 'bottom')]
@@ -616,7 +621,7 @@ def run_document(doc):
         if spec.get('kind') == 'svg':
             continue
         source = sources.setdefault((spec['pw'], spec['ph'], spec['color']), len(sources))
-        code = 0 if spec.get('kind') == 'content' else orientation_code[spec.get('orientation')]
+        code = orientation_code[spec.get('orientation')]      # generated content (::before) carries it too
         uses.append(([source, code, 0, 0, 0], by_id[spec['id']].replacement))
     for spec in doc['bgs']:
         source = sources.setdefault((spec['pw'], spec['ph'], spec['color']), len(sources))
@@ -671,8 +676,31 @@ def _unwrap_layer(layer):
         painting_area=conv(layer.painting_area), positioning_area=conv(layer.positioning_area))
 
 
-def case_document(rng):
-    doc = gen_document(rng)
+def fixed_content_documents():
+    """A fixed family, run first: an 8x4 image inserted by `::before { content: url() }` under each computed
+    image-orientation, next to an <img> of the same source at the default orientation — the generated replaced
+    box must be sized, identified and painted with the pseudo-element's own image-orientation."""
+    import random
+    docs_ = []
+    for index, orientation in enumerate(('90deg', '270deg flip', '180deg', 'flip', 'none', None)):
+        rng = random.Random(index)
+        content = gen_img(rng, 0, False)
+        content.update(pw=8, ph=4, color=0, kind='content', orientation=orientation, opacity=None, fit='fill',
+                       position_css='50% 50%', position=(False, ('%', F(50)), False, ('%', F(50))))
+        content.pop('svg', None)
+        for name in ('width', 'height', 'min_width', 'min_height', 'max_width', 'max_height'):
+            content[name] = 'auto'
+        for side in ('left', 'right', 'top', 'bottom'):
+            content[f'margin_{side}'] = content[f'padding_{side}'] = ('px', F(0))
+            content[f'border_{side}'] = F(0)
+        plain = dict(content, id='i1', kind='img', orientation=None)
+        docs_.append({'cb': {'width': F(200), 'height': 'auto', 'padding_left': F(0), 'rtl': False},
+                      'imgs': [content, plain], 'bgs': []})
+    return docs_
+
+
+def case_document(rng, doc=None):
+    doc = gen_document(rng) if doc is None else doc
     before = ROUNDED[0]
     try:
         cases = run_document(doc)
